@@ -573,10 +573,9 @@ func (g *Gen) intExpr(t *Type, sc *Scope, depth int) (string, bool) {
 		// len / cap of something in scope
 		for _, v := range sc.all() {
 			if (v.T.Kind == KSlice || v.T.Kind == KString || v.T.Kind == KMap) && g.n(2) == 0 {
+				// (cap of a slice that may have grown through append is implementation-defined;
+				// capacities are compared where they are specified, in the C07 workload)
 				fn := "len"
-				if v.T.Kind == KSlice && g.n(3) == 0 {
-					fn = "cap"
-				}
 				return t.Name + "(" + fn + "(" + v.Name + "))", false
 			}
 		}
